@@ -771,7 +771,8 @@ _WHITESPACE_CHARS = [ord(b"\t"), ord(b" ")]
 
 
 def _parse_string(value: bytes) -> bytes:
-    value_array = bytearray(value.strip())
+    # Only SP, TAB, CR and LF are whitespace to git; VT and FF are data.
+    value_array = bytearray(value.strip(b" \t\r\n"))
     ret = bytearray()
     whitespace = bytearray()
     in_quotes = False
